@@ -111,6 +111,7 @@ def mutants_for(lines, a, b, limit):
 
 # survivors that are equivalent by inspection: (regex on the mutant description, reason)
 EQUIVALENT = [
+    (re.compile(r'relational .*`assert!\('), 'weakened capacity assert!: under the precondition of the contract (the bound the call sites guarantee) the assertion is unreachable either way'),
     (re.compile(r'relational .*`while \w+ < [\w.]+\.len\(\) && \w+ < '), 'loop header generated by rule R6 for .take(K): with K <= len the first conjunct is implied (K > len is an index-out-of-bounds obligation and is killed)'),
     (re.compile(r'swap-register-operands .*Code::(BEQ|BNE)\('), 'BEQ/BNE compare for (in)equality: operand order is immaterial'),
     (re.compile(r'off-by-one .*unset_halfwords = 0'), 'only biases the MOVZ-vs-MOVN choice; both encodings load the same value (cost heuristic, no property)'),
@@ -197,7 +198,8 @@ def _run_unit(unit, limit, workers, em, text, lines, bdir):
             v = verify(base, fid)
             for nm in nested_of.get(fid, []):
                 if v == 'survived':
-                    v = verify(base, nm)
+                    v2 = verify(base, nm)
+                    v = v if v2 == 'unselected' else v2
             return v
         basev = dict(zip(fids, ex.map(base_ok, fids)))
     bad = {fid: v for fid, v in basev.items() if v != 'survived'}
@@ -209,7 +211,8 @@ def _run_unit(unit, limit, workers, em, text, lines, bdir):
         v = verify(j[2], j[0])
         for nm in nested_of.get(j[0], []):
             if v == 'survived':
-                v = verify(j[2], nm)
+                v2 = verify(j[2], nm)
+                v = v if v2 == 'unselected' else v2   # an external_body nested function has nothing to verify
         return v
     with cf.ThreadPoolExecutor(max_workers=workers) as ex:
         for (fid, desc, p), v in zip(jobs, ex.map(two_stage, jobs)):
